@@ -771,7 +771,17 @@ class Sym:
 
     def __abs__(self):
         if not self.isreal():
-            return (self.re_sym() * self.re_sym() + self.im_sym() * self.im_sym()).sqrt()
+            a = (self.re_sym() * self.re_sym() + self.im_sym() * self.im_sym()).sqrt()
+            if CTX.active and isinstance(a, Sym) and not a.is_const() and a.isreal():
+                # linear consequences of a = sqrt(re^2 + im^2), valid over the reals (octagonal enclosure of the modulus):
+                #   a >= |re|, |im|, (|re| + |im|)/sqrt2 ;   a <= max(|re|,|im|) + (sqrt2 - 1) min(|re|,|im|)
+                import z3 as _z3
+                az, rez, imz = a.re.z3(), self.re.z3(), self.im.z3()
+                ar, ai = _z3.If(rez >= 0, rez, -rez), _z3.If(imz >= 0, imz, -imz)
+                k_lo, k_up = _z3.RealVal("7071/10000"), _z3.RealVal("4143/10000")
+                CTX.add_def(_z3.And(az >= ar, az >= ai, az >= k_lo * (ar + ai),
+                                    az <= _z3.If(ar >= ai, ar + k_up * ai, ai + k_up * ar)))
+            return a
         if self.re.is_const():
             return Sym(Poly.const(abs(self.re.cval())), ZERO, self.isint)
         return ite(self < 0, -self, self)
